@@ -80,7 +80,7 @@ func concScenario(name string, scripts [][]string, preload []string, bound int, 
 			}
 			pre := map[string]bool{}
 			for _, v := range preload {
-				f.TestAndSet(t0, []byte(v))
+				tas(f, t0, v)
 				pre[v] = true
 			}
 			var ops []opRec
@@ -99,7 +99,7 @@ func concScenario(name string, scripts [][]string, preload []string, bound int, 
 							if inside > 1 {
 								overlap = true
 							}
-							r := f.TestAndSet(t0, []byte(v))
+							r := tas(f, t0, v)
 							inside--
 							tick++
 							ops = append(ops, opRec{ti, v, inv, tick, r})
